@@ -275,6 +275,31 @@ def exec_workflow(case):
                     nt = True
                 compare_builder_with_wtml(bld, out, wf)
                 cls += [wf]
+            elif wf == "tile_fits_tan_multi":
+                import toasty
+                from .. import mtgen
+
+                ind = os.path.join(d, "in")
+                os.makedirs(ind)
+                paths, exp, box = mtgen.write_inputs(case["mosaic"], ind)
+                with toasty_call("workflow", wf):
+                    with warnings.catch_warnings():
+                        warnings.simplefilter("ignore")
+                        odir, bld = toasty.tile_fits(paths, out_dir=out, parallel=1, tiling_method=toasty.TilingMethod.TAN)
+                hh, ww = exp.shape
+                canvas, L = mtgen.expected_canvas(exp)
+                # populated leaves = tiles holding a defined pixel; parents by cascade
+                pos = set()
+                for ty in range(2**L):
+                    for tx in range(2**L):
+                        if not np.isnan(canvas[256 * ty : 256 * ty + 256, 256 * tx : 256 * tx + 256]).all():
+                            pos.add((L, tx, ty))
+                for p in list(pos):
+                    for lev in range(L):
+                        pos.add(rp.ancestor_at(p, lev))
+                check_wtml_vs_disk(out, pos, f"tile_fits TAN of {len(paths)} inputs forming a {ww}x{hh} mosaic", L)
+                compare_builder_with_wtml(bld, out, wf)
+                nt = L >= 1
             else:
                 raise HarnessError("unknown workflow " + wf)
     finally:
@@ -316,7 +341,7 @@ def compare_builder_with_wtml(bld, out, what):
 def strat_workflow(draw, tier):
     from .. import wcsgen
 
-    wf = draw(st.sampled_from(["tile-study", "tile-study", "tile-allsky", "tile_fits_tan", "tile_fits_toast"]))
+    wf = draw(st.sampled_from(["tile-study", "tile-study", "tile-allsky", "tile_fits_tan", "tile_fits_toast", "tile_fits_tan_multi"]))
     case = {"workflow": wf, "salt": draw(st.integers(0, 50))}
     # (images of a few pixels cannot be thumbnailed by PIL; that is not this property's subject)
     small = st.one_of(st.integers(48, 700), st.sampled_from([256, 257, 512, 513, 300]))
@@ -329,6 +354,13 @@ def strat_workflow(draw, tier):
     elif wf == "tile-allsky":
         case.update(depth=draw(st.integers(0, 2)), cascade=draw(st.booleans()),
                     projection=draw(st.sampled_from(["plate-carree", "plate-carree-galactic", "plate-carree-ecliptic", "plate-carree-planet", "plate-carree-planet-zeroleft", "plate-carree-planet-zeroright", "plate-carree-panorama"])))
+    elif wf == "tile_fits_tan_multi":
+        from .. import mtgen
+
+        m = draw(mtgen.mosaic_cases(tier, max_size=700, max_inputs=4))
+        m["k"] = 1
+        m["rot"] = draw(st.sampled_from([0.0, 0.0, 36.87]))
+        case["mosaic"] = m
     elif wf == "tile_fits_tan":
         case.update(size=[draw(st.integers(20, 600)), draw(st.integers(20, 600))])
         spec = draw(wcsgen.wcs_specs(projections=("TAN",), max_dec=80, min_scale_log=-4.0, max_scale_log=-3.0, allow_skew=False))
@@ -362,10 +394,12 @@ def exec_history(case):
             fpath = os.path.join(d, "img.fits")
             fits.writeto(fpath, data, header=wcsgen.header_of(case["wcs"], w, h))
             out = os.path.join(d, "out") if case["explicit_out"] else None
-            kw = {"tiling_method": toasty.TilingMethod.TOAST, "start": case["start"]} if case["mode"] == "toast" else {"tiling_method": toasty.TilingMethod.TAN}
             exists = False
+            modes = case.get("modes") or [case["mode"]] * len(case["steps"])
             for si, step in enumerate(case["steps"]):
-                what = f"tile_fits ({case['mode']}) call {si} ({step}) of history {case['steps']}"
+                mode_i = modes[si] if out is not None else case["mode"]
+                kw = {"tiling_method": toasty.TilingMethod.TOAST, "start": case["start"]} if mode_i == "toast" else {"tiling_method": toasty.TilingMethod.TAN}
+                what = f"tile_fits ({mode_i}) call {si} ({step}) of history {list(zip(case['steps'], modes))}"
                 override = step == "override"
                 par = 2 if step == "parallel2" else 1
                 with toasty_call("workflow", what):
@@ -391,7 +425,7 @@ def strat_history(draw, tier):
     from .. import wcsgen
 
     mode = draw(st.sampled_from(["tan", "tan", "toast"]))
-    steps = ["fresh"] + [draw(st.sampled_from(["repeat", "repeat", "override", "parallel2"])) for _ in range(draw(st.integers(1, 3)))]
+    steps = ["fresh"] + [draw(st.sampled_from(["repeat", "repeat", "override", "parallel2"])) for _ in range(draw(st.integers(1, 4)))]
     if mode == "tan":
         spec = draw(wcsgen.wcs_specs(projections=("TAN",), max_dec=80, min_scale_log=-4.0, max_scale_log=-3.0, allow_skew=False))
         size = [draw(st.integers(20, 400)), draw(st.integers(20, 400))]
@@ -400,7 +434,13 @@ def strat_history(draw, tier):
         size = [draw(st.integers(20, 80)), draw(st.integers(20, 80))]
     spec["crpix_mode"] = "half"
     spec["ratio"] = 1.0
-    return {"mode": mode, "steps": steps, "wcs": spec, "size": size, "start": draw(st.integers(1, 2)), "explicit_out": draw(st.booleans())}
+    # the tiling mode may change between calls on the same (explicit) output directory
+    modes = [mode] + [draw(st.sampled_from([mode, mode, "tan", "toast"])) for _ in steps[1:]]
+    if mode == "tan" and "toast" in modes:
+        # a TOAST call needs an image that is large on the sky to be worth sampling at level 1-2
+        spec["scale"] = 0.2
+        size = [min(size[0], 80), min(size[1], 80)]
+    return {"mode": mode, "modes": modes, "steps": steps, "wcs": spec, "size": size, "start": draw(st.integers(1, 2)), "explicit_out": draw(st.booleans())}
 
 
 PARTS = [
